@@ -112,3 +112,16 @@ func (s Slow) Marshal(msg drpc.Message) ([]byte, error) {
 	s.G.Wait()
 	return s.Bytes.Marshal(msg)
 }
+
+// SlowU is Bytes whose Unmarshal announces itself (Arrived opens) and then parks at a gate while it is
+// still looking at the bytes it was lent: user-supplied decoders may be arbitrarily slow.
+type SlowU struct {
+	Bytes
+	G, Arrived *Gate
+}
+
+func (s SlowU) Unmarshal(buf []byte, msg drpc.Message) error {
+	s.Arrived.Open()
+	s.G.Wait()
+	return s.Bytes.Unmarshal(buf, msg)
+}
